@@ -153,3 +153,7 @@ def cross(res):
 
 def search(rng, ops, broken):
     return cases(rng, "quick")
+
+
+# tie theorems (substrings of SLV.Gen.*Tie theorem names) this property's operators depend on
+TIE = ['compute_simlex', 'compute_base_rate', 'gen_fuse', 'fuseSimplex', 'fuseSS', 'fuse_assign', 'max_uncertainty', 'uncertainty_maximized', 'Simplex_vacuous', 'is_vacuous', 'is_dogmatic', 'normalize_prob_dist', 'Simplex_normalized', 'OpinionRef_projection', 'Simplex_projection', 'discount', 'deduce', 'abduce', 'product', 'merge', 'mbr', 'inverse']
